@@ -29,7 +29,7 @@
 
     * `Stale` (D05) and `LenStale` (D06) are empty on `cleaned now db` — it stores no expired row
       (`cleaned_no_stale`, `cleaned_no_expired`);
-    * `Overflow` (D17, strings and hashes), `RangeDev` (D01), `RangeMissing` (D02), `EmptyName`
+    * `Overflow` (D17, strings and hashes), `EmptyName`
       (D18), `Judged` (C18 domain), `Decided` read only live rows and their children, which the
       cleaner leaves alone: they have the same value on both (`*_transfers`);
     * `DestIsSource`, `SumOrder`, `BangClass`,
@@ -120,17 +120,6 @@ theorem hash_overflow_transfers {db : DB} (hu : KeyIdsUnique db) (op : Op) (now 
   cases op <;> first | rfl | skip
   case hashIncr k f d => simp only [C04.Overflow, hashGetRaw_cleaned hu]
 
-theorem rangeDev_transfers {db : DB} (hu : KeyIdsUnique db) (op : Op) (now : Int) :
-    C02.RangeDev op now (cleaned now db) = C02.RangeDev op now db := by
-  cases op <;> first | rfl | skip
-  case listRange k a b => simp only [C02.RangeDev, liveListLen_cleaned hu]
-  case listTrim k a b => simp only [C02.RangeDev, liveListLen_cleaned hu]
-
-theorem rangeMissing_transfers {db : DB} (hu : KeyIdsUnique db) (op : Op) (now : Int) :
-    C02.RangeMissing op now (cleaned now db) = C02.RangeMissing op now db := by
-  cases op <;> first | rfl | skip
-  case listRange k a b => simp only [C02.RangeMissing, liveListLen_cleaned hu]
-
 theorem decided_transfers {db : DB} (hu : KeyIdsUnique db) (op : Op) (now : Int) :
     C05.Decided op now (cleaned now db) = C05.Decided op now db := by
   unfold C05.Decided
@@ -181,14 +170,12 @@ theorem spacious_transfers' {db : DB} (hinv : db.Inv) (hfk : db.fk = true) (op :
   case listInsertBefore k p e => exact insertRoom_cleaned hu now k p false
 
 theorem list_both {op : Op} {now : Int} {db : DB} (hop : C02.IsListOp op) (hinv : db.Inv)
-    (hfk : db.fk = true) (hst : C02.Stale op now db = false) (hd1 : C02.RangeDev op now db = false)
-    (hd2 : C02.RangeMissing op now db = false) (hsp : C02.Spacious op now db = true) :
+    (hfk : db.fk = true) (hst : C02.Stale op now db = false) (hsp : C02.Spacious op now db = true) :
     BothRefine idObs op now db := by
   have hu := keyIdsUnique_of_inv hinv
-  have h1 := C02.list_refines_partial op now db hop hinv hst hd1 hd2 hsp
+  have h1 := C02.list_refines_partial op now db hop hinv hst hsp
   have h2 := C02.list_refines_partial op now (cleaned now db) hop (inv_cleaned hinv hfk now)
-    (stale_cleaned op now db) (by rw [rangeDev_transfers hu]; exact hd1)
-    (by rw [rangeMissing_transfers hu]; exact hd2)
+    (stale_cleaned op now db)
     (by rw [spacious_transfers' hinv hfk op now hst]; exact hsp)
   rw [abs_cleaned hu] at h2
   exact ⟨h1, h2⟩
@@ -255,30 +242,28 @@ def readCovered : Op → Bool
   | _ => false
 
 /-- The deviation classes and domain conditions of the family theorems that can apply to a read.
-None of them mentions expired rows: D01 / D02 (`listRange` window arithmetic), `ArgsOk` /
+None of them mentions expired rows: `ArgsOk` /
 `SumOrder` / `Decided` (sorted-set combinations), D16 and the C18 domain (`keyKeys`). (D07 — a
 repeated key of an intersection — is repaired for sets and sorted sets and no longer appears.) True outright for every other covered read. -/
 def ReadSide (op : Op) (now : Int) (db : DB) : Bool :=
-  !C02.RangeDev op now db && !C02.RangeMissing op now db &&
   C05.ArgsOk op && (!C05.isZOp op || C05.Decided op now db) &&
   !C05.SumOrder op && !C06.BangClass op && C06.Judged op now db
 
 theorem readSide_iff (op : Op) (now : Int) (db : DB) : ReadSide op now db = true ↔
-    (C02.RangeDev op now db = false ∧ C02.RangeMissing op now db = false ∧
-     C05.ArgsOk op = true ∧ (C05.isZOp op = true → C05.Decided op now db = true) ∧
+    (C05.ArgsOk op = true ∧ (C05.isZOp op = true → C05.Decided op now db = true) ∧
      C05.SumOrder op = false ∧ C06.BangClass op = false ∧
      C06.Judged op now db = true) := by
   unfold ReadSide
   simp only [Bool.and_eq_true, Bool.not_eq_true', Bool.or_eq_true]
   constructor
-  · rintro ⟨⟨⟨⟨⟨⟨h1, h2⟩, h4⟩, h5⟩, h7⟩, h8⟩, h9⟩
-    refine ⟨h1, h2, h4, ?_, h7, h8, h9⟩
+  · rintro ⟨⟨⟨⟨h4, h5⟩, h7⟩, h8⟩, h9⟩
+    refine ⟨h4, ?_, h7, h8, h9⟩
     intro hz
     rcases h5 with h5 | h5
     · rw [hz] at h5; cases h5
     · exact h5
-  · rintro ⟨h1, h2, h4, h5, h7, h8, h9⟩
-    refine ⟨⟨⟨⟨⟨⟨h1, h2⟩, h4⟩, ?_⟩, h7⟩, h8⟩, h9⟩
+  · rintro ⟨h4, h5, h7, h8, h9⟩
+    refine ⟨⟨⟨⟨h4, ?_⟩, h7⟩, h8⟩, h9⟩
     cases hz : C05.isZOp op with
     | false => exact Or.inl rfl
     | true => exact Or.inr (h5 hz)
@@ -294,8 +279,7 @@ theorem reads_str {op : Op} {now : Int} {db : DB} (hop : C01.IsStrOp op)
 theorem reads_list {op : Op} {now : Int} {db : DB} (hop : C02.IsListOp op)
     (hr : Spec.isRead op = true) (hinv : db.Inv) (hfk : db.fk = true)
     (hside : ReadSide op now db = true) : BothRefine idObs op now db := by
-  obtain ⟨h1, h2, _⟩ := (readSide_iff op now db).1 hside
-  refine list_both hop hinv hfk ?_ h1 h2 ?_
+  refine list_both hop hinv hfk ?_ ?_
   · unfold C02.Stale; rw [writeKeys_read hr]; rfl
   · cases op <;> first | rfl | (cases hr; done)
 
@@ -318,7 +302,7 @@ theorem reads_hash {op : Op} {now : Int} {db : DB} (hop : C04.IsFamOp op)
 theorem reads_zset {op : Op} {now : Int} {db : DB} (hop : C05.IsZOp op)
     (hr : Spec.isRead op = true) (hinv : db.Inv) (hfk : db.fk = true)
     (hside : ReadSide op now db = true) : BothRefine idObs op now db := by
-  obtain ⟨_, _, h4, h5, h7, _⟩ := (readSide_iff op now db).1 hside
+  obtain ⟨h4, h5, h7, _⟩ := (readSide_iff op now db).1 hside
   refine zset_both hop hinv hfk h4 (h5 hop) ?_ ?_ h7
   · unfold C05.Stale; rw [writeKeys_read hr]; rfl
   · cases op <;> first | rfl | (cases hr; done)
@@ -326,7 +310,7 @@ theorem reads_zset {op : Op} {now : Int} {db : DB} (hop : C05.IsZOp op)
 theorem reads_key {op : Op} {now : Int} {db : DB} (hop : C06.IsFamOp op)
     (hr : Spec.isRead op = true) (hcov : readCovered op = true) (hinv : db.Inv)
     (hfk : db.fk = true) (hside : ReadSide op now db = true) : BothRefine C06.obs op now db := by
-  obtain ⟨_, _, _, _, _, h8, h9⟩ := (readSide_iff op now db).1 hside
+  obtain ⟨_, _, _, h8, h9⟩ := (readSide_iff op now db).1 hside
   refine key_both hop hinv hfk ?_ ?_ h8 h9
   · cases op <;> first | rfl | (cases hcov; done)
   · cases op <;> first | rfl | (cases hr; done)
@@ -400,15 +384,13 @@ theorem cleaned_cleaned_keys : ∀ (now : Int) (db : DB), db.Inv →
 theorem classifiers_transfer : ∀ (op : Op) (now : Int) (db : DB), db.Inv →
     C01.Overflow op now (cleaned now db) = C01.Overflow op now db ∧
     C04.Overflow op now (cleaned now db) = C04.Overflow op now db ∧
-    C02.RangeDev op now (cleaned now db) = C02.RangeDev op now db ∧
-    C02.RangeMissing op now (cleaned now db) = C02.RangeMissing op now db ∧
     C05.Decided op now (cleaned now db) = C05.Decided op now db ∧
     C06.EmptyName op now (cleaned now db) = C06.EmptyName op now db ∧
     C06.Judged op now (cleaned now db) = C06.Judged op now db := by
   intro op now db hinv
   have hu := keyIdsUnique_of_inv hinv
   exact ⟨str_overflow_transfers hu op now, hash_overflow_transfers hu op now,
-    rangeDev_transfers hu op now, rangeMissing_transfers hu op now, decided_transfers hu op now,
+    decided_transfers hu op now,
     emptyName_transfers hu op now, judged_transfers hu op now⟩
 
 /-- `C02.Spacious` (room for the position a push or insert computes) transfers as well, for every
@@ -439,16 +421,15 @@ theorem expired_uncleaned_is_absent_str : ∀ (op : Op) (now : Int) (db : DB),
     r.out = r'.out ∧ Spec.abs now r.db = Spec.abs now r'.db :=
   fun _ _ _ hop hinv hfk harg hst hov => (str_both hop hinv hfk harg hst hov).agree
 
-/-- **C10, lists.** Any list operation, outside D05 / D01 / D02 and with `Spacious` position
+/-- **C10, lists.** Any list operation, outside D05 and with `Spacious` position
 arithmetic, all judged on `db` alone. -/
 theorem expired_uncleaned_is_absent_list : ∀ (op : Op) (now : Int) (db : DB),
     C02.IsListOp op → db.Inv → db.fk = true → C02.Stale op now db = false →
-    C02.RangeDev op now db = false → C02.RangeMissing op now db = false →
     C02.Spacious op now db = true →
     let r := Model.dbRun op now db
     let r' := Model.dbRun op now (cleaned now db)
     r.out = r'.out ∧ Spec.abs now r.db = Spec.abs now r'.db :=
-  fun _ _ _ hop hinv hfk hst hd1 hd2 hsp => (list_both hop hinv hfk hst hd1 hd2 hsp).agree
+  fun _ _ _ hop hinv hfk hst hsp => (list_both hop hinv hfk hst hsp).agree
 
 /-- **C10, sets.** Any set operation, outside D05 judged on `db` alone (D08 is about the
 arguments; D07 is repaired). -/
@@ -505,7 +486,7 @@ theorem readCovered_spec : ∀ op : Op, readCovered op =
 constructors, of all six families — answers the same on the tables with the expired rows and on
 the tables from which they were removed, namely what the specification answers on the keyspace
 of the live keys; and it leaves both table states exactly as they were. No hypothesis mentions
-expired rows: `ReadSide` collects the classes D01, D02, D16 and the domain conditions of
+expired rows: `ReadSide` collects the class D16 and the domain conditions of
 `listRange`, `zInter`, `zUnion`, `keyKeys`, all judged on `db` alone. -/
 theorem expired_invisible_to_reads : ∀ (op : Op) (now : Int) (db : DB),
     Spec.isRead op = true → readCovered op = true → db.Inv → db.fk = true →
@@ -868,7 +849,7 @@ example :
     let r := Model.dbRun (.listPushBack bL bZ) 10 mixed
     let r' := Model.dbRun (.listPushBack bL bZ) 10 (cleaned 10 mixed)
     r.out = r'.out ∧ Spec.abs 10 r.db = Spec.abs 10 r'.db :=
-  expired_uncleaned_is_absent_list (.listPushBack bL bZ) 10 mixed rfl mixed_inv rfl (by decide) rfl rfl
+  expired_uncleaned_is_absent_list (.listPushBack bL bZ) 10 mixed rfl mixed_inv rfl (by decide)
     (by decide)
 
 example : outInt (Model.dbRun (.listPushBack bL bZ) 10 mixed).out = some 2 ∧
@@ -880,7 +861,7 @@ example :
     let r' := Model.dbRun (.listPopBackPushFront bL bM) 10 (cleaned 10 mixed)
     r.out = r'.out ∧ Spec.abs 10 r.db = Spec.abs 10 r'.db :=
   expired_uncleaned_is_absent_list (.listPopBackPushFront bL bM) 10 mixed rfl mixed_inv rfl (by decide)
-    rfl rfl (by decide)
+    (by decide)
 
 /-- the ids the two runs allocate differ (6 against 4): equal keyspaces, different tables -/
 example : ((Model.dbRun (.listPopBackPushFront bL bM) 10 mixed).db.keys.map (·.id)) = [1, 2, 3, 4, 5, 6] ∧
@@ -953,7 +934,7 @@ example :
 /-- a pattern listing: `ReadSide` holds (D16, C18 domain) -/
 example : ReadSide (.keyKeys [42]) 10 mixed = true := by decide
 
-/-- a list range with a negative bound on a live list: `ReadSide` is D01 there -/
+/-- a list range with a negative bound on a live list (D01 is repaired: no side condition) -/
 example : ReadSide (.listRange bL 0 (-1)) 10 mixed = true := by decide
 
 /-- the boundary on `mixed`: `l` (expiry 100) is visible at 99 and gone at 100; `a` (expiry 5) is
